@@ -44,6 +44,25 @@ pub fn catalogue() -> Vec<(&'static str, Vec<MLayer>)> {
 			vec![layer("a", &["k", "n", "k", "z"], vec![s("v"), s("v"), u(5), s("last")], vec![feat(Some(7), &[3, 3], 1, point(6, 6)), feat(Some(8), &[2, 1, 1, 2], 1, point(6, 7))])],
 		),
 		("layer a, 30 features", vec![layer("a", &["i"], (0..30).map(u).collect(), (0..30).map(|i| feat(Some(100 + i as u64), &[0, i], 1, point(i as i32, 0))).collect())]),
+		(
+			"layer a, integer properties at the borders of their encodings (sint64 min/max/+-2^62, int64 min/-1, uint64 2^35/2^63/max)",
+			vec![layer(
+				"a",
+				&["smin", "smax", "s62", "sm62", "imin", "im1", "u35", "u63", "umax"],
+				vec![
+					(Enc::SInt64, MVal::Int(i64::MIN as i128)),
+					(Enc::SInt64, MVal::Int(i64::MAX as i128)),
+					(Enc::SInt64, MVal::Int(1i128 << 62)),
+					(Enc::SInt64, MVal::Int(-(1i128 << 62) - 1)),
+					(Enc::Int64, MVal::Int(i64::MIN as i128)),
+					(Enc::Int64, MVal::Int(-1)),
+					(Enc::UInt64, MVal::Int(1i128 << 35)),
+					(Enc::UInt64, MVal::Int(1i128 << 63)),
+					(Enc::UInt64, MVal::Int(u64::MAX as i128)),
+				],
+				vec![feat(Some(1u64 << 35), &[0, 0, 1, 1, 2, 2, 3, 3, 4, 4], 1, point(1, 1)), feat(Some((1u64 << 63) + 5), &[5, 5, 6, 6, 7, 7, 8, 8], 1, point(-4096, 8191))],
+			)],
+		),
 		("layer b, version 1 without extent field", vec![MLayer { extent: None, version: 1, ..layer("b", &["t"], vec![s("v1")], vec![feat(Some(11), &[0, 0], 2, line(&[(1, 1), (2, 2)]))]) }]),
 	]
 }
@@ -92,7 +111,7 @@ pub fn compare_layers(got: &[DLayer], want: &BTreeMap<String, Vec<DFeature>>) ->
 
 pub fn run(ctx: Arc<Ctx>) {
 	ctx.rule(
-		"catalogue of 12 small valid vector tiles built by an independent MVT encoder (disjoint/overlapping layer names, tables in other order / with duplicates / unused entries, ids none/0/2^64-1, all value kinds, extents, empty layer); \
+		"catalogue of 13 small valid vector tiles built by an independent MVT encoder (disjoint/overlapping layer names, tables in other order / with duplicates / unused entries, ids none/0/2^64-1, all value kinds, extents, empty layer); \
 		 every ordered pair (quick) and every ordered triple (thorough; quick: triples over the first 6) as source lists; each source holds its tile at one coordinate per presence mask, so every presence pattern occurs; source compressions mixed. \
 		 plus every ordered pair of a bounded-exhaustive family of small layers of one name (5 key tables x 4 value tables x feature lists with every tag list of <= 2 pairs; every 2nd per side in quick, all in thorough) merged through one pipeline whose sources hold layer i resp. j at (10,i,j). plus merges whose key/value tables cross 128 / 16384 (thorough: 2^21) entries only after merging. oracle on independently decoded output: layer set, features in source order with id/type/geometry bytes/property set, declared+delivered uncompressed, lookups = stream. non-trivial = (source list, presence mask) with >= 2 sources present",
 	);
